@@ -132,7 +132,6 @@ class Monitors:
         self.label = ('?',)         # class labels of the current case for the buckets
         self.hfail = None
         self.mon = {}
-        self.depth = 0
 
     def install(self):
         for modname, name in self.NAMES:
